@@ -20,7 +20,10 @@ MANIFEST = dict(
          "condition language of Spec/Cond.lean (all constructs, every block layout, file size and external values), that each rule of a rule set gets the same verdict in EVERY larger rule set "
          "that contains it and the rules it refers to, in the same order, among arbitrary other rules before, between and after them (verdict_company_independent, by the frame lemma eval_rename; "
          "verdict_alone for rules naming no other rule). The tie to the code is a differential run: each rule alone vs. in a colliding company, permutations, prefixes "
-         "(monotonicity) and source splits/includes; the automaton contract itself is checked per case through hooks in C01. Rule-set shapes are sampled.",
+         "(monotonicity) and source splits/includes; the automaton contract itself is checked per case through hooks in C01, and Thm/AcBuild.lean proves it for the modelled "
+         "construction of the SHARED automaton for every list of non-empty atoms and every buffer (build_sound / build_candsOK: whatever else is inserted, each string's candidates are exactly "
+         "the occurrences of its atoms); the construction model must build tables EQUAL to the real ones for every company and every generated rule set (text, hex, regex; growth). "
+         "Rule-set shapes are sampled; zero-length atoms (strings without a usable atom) are covered by the table comparison only.",
     design_ref="DESIGN.md §5 C05",
     note=core.TB + "Text strings only in the theorem (hex/regex strings covered by the differential). Global rules are not added to the namespace of the rule under test (excluded by the property).")
 
